@@ -249,8 +249,20 @@ func rmCensus(m *sysl.Module) [][]string {
 				}
 				continue
 			}
-			if _, isArr := a.GetAttribute().(*sysl.Attribute_A); isArr {
-				continue // array values are compared by the annotation tests of the repository; skipped here
+			if arr, isArr := a.GetAttribute().(*sysl.Attribute_A); isArr {
+				// an array of strings, in the notation of the relational model: ['a', 'b']
+				var es []string
+				flat := true
+				for _, e := range arr.A.GetElt() {
+					if _, ok := e.GetAttribute().(*sysl.Attribute_S); !ok {
+						flat = false
+					}
+					es = append(es, "'"+e.GetS()+"'")
+				}
+				if flat {
+					add(append(append([]string{kind + ".anno"}, key...), k, "["+strings.Join(es, ", ")+"]")...)
+				}
+				continue
 			}
 			add(append(append([]string{kind + ".anno"}, key...), k, attrStr(a))...)
 		}
